@@ -39,9 +39,9 @@ from mc.ref import c06_ref as R
 PROPERTY = "C06"
 RULE = (
     "units: kernel variant (RW, IWLS with -Hessian, IWLS with a constant / state-dependent "
-    "user information, MH with drift / multiplicative / independence proposals) x model family "
+    "user information, MH with drift / multiplicative / independence proposals and with proposals declaring -inf / +inf corrections for irreversible moves) x model family "
     "(Gaussian, logistic, Poisson, Gamma-Poisson on the log scale; DictInterface and a real "
-    "lsl.Model through LieselInterface) x block layout (scalar, vector, two keys listed in "
+    "lsl.Model through LieselInterface and the legacy lsl.GooseModel, auto_update on and off) x block layout (scalar, vector, two keys listed in "
     "non-alphabetical order, one key of two). Per unit the full product lattice(x) x scripted "
     "z (0, unit vectors, lattice) x step sizes x scripted u x epoch types is executed on the "
     "real kernel.transition (jit+vmap over the product, scripted draws passed as traced inputs), "
@@ -124,6 +124,22 @@ def units(tier, seed):
         for fam in ["gauss", "pois"] if tier == "quick" else ["gauss", "pois", "logit", "gampois"]:
             for lay in ["scalar", "twokeys"] if tier == "quick" else list(LAYOUTS):
                 add(kernel="mh", proposal=prop, family=fam, layout=lay)
+    # user proposals that declare non-finite corrections (irreversible moves): forwarded unchanged
+    for prop in ["onesided", "gate"]:
+        for fam in ["gauss", "pois"]:
+            for lay in ["scalar", "twokeys"] if tier == "quick" else list(LAYOUTS):
+                add(kernel="mh", proposal=prop, family=fam, layout=lay)
+    # legacy interface lsl.GooseModel and models with auto_update off
+    extra_ifaces = [
+        ("goose-noauto", [dict(kernel="rw"), dict(kernel="iwls", info=None), dict(kernel="mh", proposal="drift")], ["vector", "partial"]),
+        ("goose", [dict(kernel="rw"), dict(kernel="iwls", info=None), dict(kernel="mh", proposal="drift")], ["vector"]),
+        ("liesel-noauto", [dict(kernel="rw"), dict(kernel="iwls", info=None)], ["partial"]),
+    ]
+    for iface, kerns, lays in extra_ifaces:
+        for kern in kerns:
+            for lay in lays if tier == "quick" else ["scalar", "vector", "twokeys", "partial"]:
+                i += 1
+                out.append({"kind": "kernel", "tier": tier, "key": 1000 * seed + i, "off": OFFS[tier][0], "iface": iface, "family": "pois", "layout": lay, **kern})
     # real lsl.Model through LieselInterface (Poisson regression and Gaussian)
     for kern in [dict(kernel="rw"), dict(kernel="iwls", info=None), dict(kernel="iwls", info="statedep"), dict(kernel="mh", proposal="drift")]:
         for lay in ["vector", "partial"] if tier == "quick" else ["scalar", "vector", "twokeys", "partial"]:
@@ -265,9 +281,22 @@ class Setup:
         yv = lsl.obs(jnp.asarray(y), lsl.Dist(tfd.Poisson, log_rate=eta), name="y")
         from mc.seams import quiet
 
+        import warnings
+
         with quiet():
             model = lsl.GraphBuilder().add(yv).build_model()
-        self.iface = gs.LieselInterface(model)
+        kind = self.unit["iface"]
+        model.auto_update = not kind.endswith("-noauto")
+        if not model.auto_update:
+            model.update()
+        if kind.startswith("goose"):
+            with warnings.catch_warnings():
+                warnings.simplefilter("ignore", FutureWarning)  # lsl.GooseModel is deprecated
+                self.iface = lsl.GooseModel(model)
+        else:
+            self.iface = gs.LieselInterface(model)
+        if self.iface._model.auto_update != model.auto_update:
+            raise RuntimeError("the interface's model copy lost the auto_update setting")
         self.base_state = model.state
 
     # -- state construction --------------------------------------------------------
@@ -336,6 +365,13 @@ class Setup:
                 elif kind == "mult":
                     xp = xb * jnp.exp(s * z)
                     corr = jnp.sum(jnp.log(xp) - jnp.log(xb))
+                elif kind == "onesided":
+                    # irreversible move: every component goes up; q(x|x') = 0 unless nothing moved
+                    xp = xb + s * jnp.abs(z)
+                    corr = jnp.where(jnp.any(xp > xb), -jnp.inf, 0.0)
+                elif kind == "gate":
+                    xp = xb + s * z
+                    corr = jnp.where(z[0] > R.MH_GATE, jnp.inf, jnp.where(z[0] < -R.MH_GATE, -jnp.inf, 0.0))
                 else:
                     xp = center + s * z
                     corr = norm_lp(xb, center, s) - norm_lp(xp, center, s)
@@ -485,6 +521,10 @@ class Oracle:
         b = self.s.block
         lp_x = b.logp(theta, xb)
         lp_xp = b.logp(theta, xp)
+        if self.kernel == "mh" and self.u["proposal"] in ("gate", "onesided"):
+            # the user-declared log-correction, possibly +-inf (forwarded unchanged)
+            c = R.mh_logcorr(self.u["proposal"], xb, xp, s)
+            return (lp_xp - lp_x) + c, lp_x, lp_xp, 0.0, c
         fwd = self.logq(theta, xp, xb, s)
         bwd = self.logq(theta, xb, xp, s)
         return R.log_ratio(lp_x, lp_xp, fwd, bwd), lp_x, lp_xp, fwd, bwd
@@ -764,6 +804,12 @@ def run_kernel(unit):
                 W.fail("alpha", {**case, "reverse": True}, f"reverse move: reported alpha {a2} != reference {a2_ref}")
             # detailed balance  pi(x) q(x'|x) a(x->x') == pi(x') q(x|x') a(x'->x)  (reference pi, q)
             la, lb = lp_x + fwd, lp_xp + bwd
+            if not (math.isfinite(la) and math.isfinite(lb)):
+                # one direction has zero proposal density: the other direction must never be accepted
+                if (lb == math.inf and a2 > TOL_ALPHA) or (la == math.inf and alpha > TOL_ALPHA) or (lb == -math.inf and alpha > TOL_ALPHA):
+                    W.fail("detailed-balance", case, f"irreversible move accepted in both directions: a={alpha}, a'={a2}, declared corrections {bwd - fwd}")
+                res.outcome(kname, "reverse-irreversible")
+                continue
             M = max(la, lb)
             dbres = abs(alpha * math.exp(la - M) - a2 * math.exp(lb - M))
             max_noise["db"] = max(max_noise["db"], dbres)
@@ -844,6 +890,8 @@ def _mh_reverse_z(kind, x_from, x_to, s):
     x_to = np.asarray(x_to, dtype=np.float64)
     if kind == "drift":
         return (x_to - x_from - s * R.MH_DRIFT) / s
+    if kind in ("gate", "onesided"):
+        return (x_to - x_from) / s
     if kind == "mult":
         return np.log(x_to / x_from) / s
     if kind == "indep":
